@@ -198,8 +198,9 @@ def _near_boundary(case, rows):
 
 
 def _rel(a, b):
+    # operators have integer entries: squared estimates below 1e-20 are rounding noise around an exact zero
     d = abs(a - b) / max(abs(a), abs(b), 1e-300)
-    if a == b:
+    if a == b or (abs(a) < 1e-20 and abs(b) < 1e-20):
         d = 0.0
     STATS['max_rel_diff'] = max(STATS['max_rel_diff'], d) if d < 1 else STATS['max_rel_diff']
     return d
@@ -399,7 +400,65 @@ def extra_checks(ctx):
             ctx.count(k, int(v))
 
 
+
+# ---- convergence on constructed spectra: operators of any scale, float32/float64, batched with different speeds ----
+def gen_conv(rng, tier):
+    out = []
+    for _ in range(24 if tier == 'quick' else 400):
+        n = rng.randint(2, 5)
+        batch = rng.choice([1, 1, 2, 3])
+        sig = []
+        for _b in range(batch):
+            top = rng.choice([1.0, 2.0, 3.0])
+            ratio = rng.choice([0.25, 0.5, 0.9 if batch > 1 else 0.5])   # sigma_2 / sigma_1 (0.9: slow entry next to fast ones)
+            sig.append([top] + [top * ratio * rng.choice([1.0, 0.5, 0.25]) for _ in range(n - 1)])
+        out.append({'n': n, 'batch': batch, 'sig': sig, 'scale_exp': rng.choice([-14, -10, -7, -4, 0, 4, 10]),
+                    'dtype': rng.choice(['float32', 'float64']), 'perm_seed': rng.randrange(10 ** 6), 'maxit': 400,
+                    'tol': rng.choice([0.0, 1e-6])})
+    return out
+
+
+def impl_conv(c):
+    from mrpro.operators import EinsumOp
+    dt = torch.float32 if c['dtype'] == 'float32' else torch.float64
+    g = torch.Generator().manual_seed(c['perm_seed'])
+    mats = []
+    for sig in c['sig']:
+        # A = P diag(sig) Q with signed permutations P, Q: exact singular values, entries exactly representable
+        n = len(sig)
+        P = torch.eye(n, dtype=dt)[torch.randperm(n, generator=g)] * (torch.randint(0, 2, (n,), generator=g) * 2 - 1).to(dt)
+        Q = torch.eye(n, dtype=dt)[torch.randperm(n, generator=g)]
+        mats.append((P @ torch.diag(torch.tensor(sig, dtype=dt)) @ Q) * (2.0 ** c['scale_exp']))
+    M = torch.stack(mats)
+    op = EinsumOp(M, '... i j, ... j -> ... i')
+    v0 = torch.ones(c['batch'], c['n'], dtype=dt)   # has a component along every singular vector
+    seq = []
+    est = op.operator_norm(v0, dim=(-1,), max_iterations=c['maxit'], relative_tolerance=c['tol'], absolute_tolerance=0.0,
+                           callback=lambda e: seq.append(e.reshape(-1).to(torch.float64).tolist()))
+    return {'est': est.reshape(-1).to(torch.float64).tolist(), 'n_callbacks': len(seq),
+            'true': [s[0] * 2.0 ** c['scale_exp'] for s in c['sig']]}
+
+
+def oracle_conv(c, o):
+    if isinstance(o, dict) and 'raises' in o:
+        return f'operator_norm raised {o["raises"]}: {o.get("msg")}'
+    eps = 2e-3 if c['dtype'] == 'float32' else 1e-6
+    for e, t in zip(o['est'], o['true']):
+        if not (e == e) or e <= 0:
+            return f'estimate {e} is not a positive finite number (true norm {t})'
+        if e > t * (1 + eps):
+            return f'estimate {e} exceeds the true norm {t} ({c["dtype"]}, operator scale 2^{c["scale_exp"]})'
+        # generic start vector, spectral gap >= 1/0.9, 400 iterations (or a relative tolerance of 1e-6 on every batch entry):
+        # the estimate must have converged to the largest singular value - for every entry of the batch
+        if e < t * (1 - max(eps, 2e-3)):
+            return (f'estimate {e} did not converge to the true norm {t} ({c["dtype"]}, operator scale 2^{c["scale_exp"]}, '
+                    f'batch {c["batch"]}, tolerance {c["tol"]}, {o["n_callbacks"]} iterations)')
+    return None
+
+
 FAMILIES = [
+    Family('convergence_any_scale', gen_conv, impl_conv, None, '', None, oracle_conv,
+           descr=lambda c: {'dtype': c['dtype'], 'scale_exp': c['scale_exp'], 'batch': c['batch']}, theorem='(implementation-level: convergence is not proved)'),
     Family('power_iteration', gen_power, impl_power, coq_power, PREAMBLE, compare_power, oracle_power,
            nontrivial=lambda c: c['maxit'] >= 1 and any(any(v) for v in c['v0']) and len(c['mats'][0][0]) > 1, descr=descr_power, shard=15,
            theorem='C19_below_norm, C19_monotone, C19_scale_free'),
